@@ -370,6 +370,16 @@ pub fn case(ctx: &mut Ctx, tag: &str, small: &str, cache: &str, schedule: &str, 
         match sched.as_str() {
             "single" => { let _ = client.write_all(&all); }
             "bytes" => { for b in &all { if client.write_all(&[*b]).is_err() { break; } } }
+            // the last k bytes of every request arrive 25 ms after the rest of it (k = 1: the final LF of a head in a piece of its own)
+            t if t.starts_with("tail") => {
+                let k: usize = t[4..].parse().unwrap();
+                for (bytes, _, _) in &specs {
+                    let cut = bytes.len().saturating_sub(k);
+                    if client.write_all(&bytes[..cut]).is_err() { break; }
+                    std::thread::sleep(Duration::from_millis(25));
+                    if client.write_all(&bytes[cut..]).is_err() { break; }
+                }
+            }
             // each further request 35 ms after the one before: it arrives while the response to the earlier one is still being produced
             "mid" => {
                 for (i, (bytes, _, _)) in specs.iter().enumerate() {
@@ -568,13 +578,6 @@ fn events_in_sequences(ctx: &mut Ctx, rng: &mut Rng) {
 pub fn run_c04e(ctx: &mut Ctx) {
     let mut rng = Rng::new(ctx.seed.wrapping_add(44));
     events_in_sequences(ctx, &mut rng);
-    // long keep-alive sequences: 130 and 260 requests on one connection, pipelined and one at a time
-    for (k, (count, sched)) in [(130usize, "single"), (130, "pingpong"), (260, "frag")].iter().enumerate() {
-        if ctx.mine(60_000 + k as u64) {
-            let reqs: Vec<String> = (0..*count).map(|j| format!("GET:/r{j}:n::n200")).collect();
-            case(ctx, "c04", "100", "1", sched, &reqs.join(";"));
-        }
-    }
 }
 
 /// C04: sequences of 1..12 requests x behaviours x schedules.
@@ -618,6 +621,19 @@ pub fn run(ctx: &mut Ctx) {
         }
     }
     events_in_sequences(ctx, &mut rng);
+    // the end of a head (and of a body) delayed: the last 1..5 bytes of every request arrive in a piece of their own
+    for k in 1..=5usize {
+        for (j, reqs) in ["GET:/a:n::n200", "GET:/a:n::n200;GET:/b:n::n404;GET:/c:n::n200", "POST:/p:k:3031323334353637:n201;GET:/q:n::n200"].iter().enumerate() {
+            if ctx.mine(61_000 + (k * 10 + j) as u64) { case(ctx, "c04", "100", "1", &format!("tail{k}"), reqs); }
+        }
+    }
+    // long keep-alive sequences: 130 and 260 requests on one connection, pipelined and one at a time
+    for (k, (count, sched)) in [(130usize, "single"), (130, "pingpong"), (260, "frag")].iter().enumerate() {
+        if ctx.mine(60_000 + k as u64) {
+            let reqs: Vec<String> = (0..*count).map(|j| format!("GET:/r{j}:n::n200")).collect();
+            case(ctx, "c04", "100", "1", sched, &reqs.join(";"));
+        }
+    }
     // a client that waits for `100 Continue` before sending the body (head first, body after the interim response)
     let nw = if ctx.thorough() { 200 } else { 30 };
     for i in 0..nw {
